@@ -81,18 +81,20 @@ structure Converter.Sound (c : Converter Rat) : Prop where
   id_inj : ∀ u v, u ∈ c.allUnits → v ∈ c.allUnits → u.id = v.id → u = v
   ratio_ne : ∀ u, u ∈ c.allUnits → u.ratio ≠ 0
   symbol : ∀ u, u ∈ c.allUnits → u.symbol?.isSome = true
+  keys : ∀ u, u ∈ c.allUnits → ∀ k, k ∈ u.allKeys → c.findUnit k = some u
 
 def soundB (c : Converter Rat) : Bool :=
   PhysQ.all.all (fun q => [System.metric, System.imperial].all (fun s =>
     ((c.best q).conversions s).unitsOf.all (fun u => c.allUnits.contains u && decide (u.pq = q))))
   && c.allUnits.all (fun u => c.allUnits.all (fun v => decide (u.id = v.id → u = v)))
   && c.allUnits.all (fun u => decide (u.ratio ≠ 0) && u.symbol?.isSome)
+  && c.allUnits.all (fun u => u.allKeys.all (fun k => decide (c.findUnit k = some u)))
 
 theorem soundB_sound (c : Converter Rat) (h : soundB c = true) : c.Sound := by
   simp only [soundB, Bool.and_eq_true, List.all_eq_true, decide_eq_true_eq, List.contains_eq_mem,
     PhysQ.all] at h
-  obtain ⟨⟨h1, h2⟩, h3⟩ := h
-  refine ⟨?_, ?_, ?_, ?_⟩
+  obtain ⟨⟨⟨h1, h2⟩, h3⟩, h4⟩ := h
+  refine ⟨?_, ?_, ?_, ?_, ?_⟩
   · intro q s u hu
     have hq : q ∈ [PhysQ.volume, .mass, .length, .temperature, .time] := by cases q <;> simp
     have hs : s ∈ [System.metric, System.imperial] := by cases s <;> simp
@@ -100,6 +102,7 @@ theorem soundB_sound (c : Converter Rat) (h : soundB c = true) : c.Sound := by
   · intro u v hu hv; exact h2 u hu v hv
   · intro u hu; exact (h3 u hu).1
   · intro u hu; exact (h3 u hu).2
+  · intro u hu k hk; exact h4 u hu k hk
 
 theorem findUnit_mem {c : Converter Rat} {k : Str} {u : Unit Rat} (h : c.findUnit k = some u) :
     u ∈ c.allUnits := List.mem_of_find?_eq_some h
@@ -245,5 +248,229 @@ theorem convertValue_ok (value : ConvertValue Rat) (a b : Unit Rat) (hq : a.pq =
     · split
       · rename_i hn; exact absurd hn (convertF64_ne_none _ _ _ hq)
       · exact ⟨_, rfl⟩
+
+end Cook
+
+namespace Cook
+open Arith
+
+theorem convertToUnit_spec {value v' : ConvertValue Rat} {u t : Unit Rat}
+    (h : convertToUnit value u t = .ok v') (ht : t.ratio ≠ 0) (hid : u.id = t.id → u = t) :
+    u.pq = t.pq ∧ amounts v'.parts t = amounts value.parts u := by
+  unfold convertToUnit at h
+  split at h
+  · cases h
+  · rename_i hq
+    exact ⟨Decidable.not_not.mp hq, convertValue_parts h ht hid⟩
+
+theorem convertToUnit_error {value : ConvertValue Rat} {u t : Unit Rat} {e : ConvErr}
+    (h : convertToUnit value u t = .error e) :
+    (u.pq ≠ t.pq ∧ e = .mixedQuantities u.pq t.pq) ∨ e = .panic .mixedAssert := by
+  unfold convertToUnit at h
+  split at h
+  · rename_i hq
+    simp only [Except.error.injEq] at h
+    exact Or.inl ⟨hq, h.symm⟩
+  · exact Or.inr (convertValue_error h)
+
+/-- the same-quantity guard: a target of another physical quantity is refused -/
+theorem convertToUnit_mixed (value : ConvertValue Rat) (u t : Unit Rat) (hq : u.pq ≠ t.pq) :
+    convertToUnit value u t = .error (.mixedQuantities u.pq t.pq) := by
+  unfold convertToUnit; simp [hq]
+
+theorem convertToBest_spec {c : Converter Rat} (hc : c.Sound) {value v' : ConvertValue Rat}
+    {u b : Unit Rat} {system : System} (hu : u ∈ c.allUnits)
+    (h : c.convertToBest value u system = .ok (v', b)) :
+    b ∈ ((c.best u.pq).conversions system).unitsOf ∧ b ∈ c.allUnits ∧ b.pq = u.pq ∧
+      amounts v'.parts b = amounts value.parts u := by
+  unfold Converter.convertToBest at h
+  split at h
+  · cases h
+  · cases h
+  · rename_i best hbest
+    split at h
+    · cases h
+    · rename_i v hv
+      simp only [Except.ok.injEq, Prod.mk.injEq] at h
+      obtain ⟨rfl, rfl⟩ := h
+      have hm := bestUnit_mem hbest
+      have hb := hc.best_mem _ _ _ hm
+      refine ⟨hm, hb.1, hb.2, convertValue_parts hv (hc.ratio_ne _ hb.1) ?_⟩
+      exact hc.id_inj _ _ hu hb.1
+
+theorem convertToBest_error {c : Converter Rat} {value : ConvertValue Rat} {u : Unit Rat}
+    {system : System} {e : ConvErr} (h : c.convertToBest value u system = .error e) :
+    (((c.best u.pq).conversions system).entries = [] ∧ e = .bestUnitNotFound u.pq u.system)
+      ∨ e = .panic .mixedAssert := by
+  unfold Converter.convertToBest at h
+  split at h
+  · rename_i e' he
+    simp only [Except.error.injEq] at h; subst h
+    exact Or.inr (bestUnit_error he)
+  · rename_i hn
+    simp only [Except.error.injEq] at h
+    exact Or.inl ⟨bestUnit_none hn, h.symm⟩
+  · split at h
+    · rename_i e' he
+      simp only [Except.error.injEq] at h; subst h
+      exact Or.inr (convertValue_error he)
+    · cases h
+
+/-- a missing best list is reported -/
+theorem convertToBest_empty (c : Converter Rat) (value : ConvertValue Rat) (u : Unit Rat)
+    (system : System) (h : ((c.best u.pq).conversions system).entries = []) :
+    c.convertToBest value u system = .error (.bestUnitNotFound u.pq u.system) := by
+  unfold Converter.convertToBest
+  rw [bestUnit_empty _ _ _ h]
+
+theorem convertToBest_ok {c : Converter Rat} (hc : c.Sound) (value : ConvertValue Rat) (u : Unit Rat)
+    (system : System) (hne : ((c.best u.pq).conversions system).entries ≠ []) :
+    ∃ r, c.convertToBest value u system = .ok r := by
+  unfold Converter.convertToBest
+  have hq : ∀ b ∈ ((c.best u.pq).conversions system).unitsOf, b.pq = u.pq :=
+    fun b hb => (hc.best_mem _ _ _ hb).2
+  obtain ⟨r, hr⟩ := bestUnit_ok value u hq
+  rw [hr]
+  cases r with
+  | none => exact absurd (bestUnit_none hr) hne
+  | some best =>
+    simp only
+    have hb := hq best (bestUnit_mem hr)
+    obtain ⟨v', hv⟩ := convertValue_ok value u best hb.symm
+    rw [hv]
+    exact ⟨_, rfl⟩
+
+theorem getUnit_unit (c : Converter Rat) (u : Unit Rat) : c.getUnit (.unit u) = .ok u := rfl
+
+/-- `Converter::convert` from a unit of the converter: quantity, membership, amounts -/
+theorem convert_spec {c : Converter Rat} (hc : c.Sound) {value v' : ConvertValue Rat}
+    {u t : Unit Rat} {to : ConvertTo Rat} (hu : u ∈ c.allUnits)
+    (hto : ∀ x, to = .unit (.unit x) → x ∈ c.allUnits)
+    (h : c.convert value (.unit u) to = .ok (v', t)) :
+    t ∈ c.allUnits ∧ t.pq = u.pq ∧ amounts v'.parts t = amounts value.parts u ∧
+    (∀ s, to = .best s → t ∈ ((c.best u.pq).conversions s).unitsOf) ∧
+    (to = .sameSystem → t ∈ ((c.best u.pq).conversions (u.system.getD c.defaultSystem)).unitsOf) := by
+  unfold Converter.convert at h
+  simp only [getUnit_unit] at h
+  cases to with
+  | sameSystem =>
+    simp only at h
+    have := convertToBest_spec hc hu h
+    exact ⟨this.2.1, this.2.2.1, this.2.2.2, (by intro s hs; cases hs), fun _ => this.1⟩
+  | best s =>
+    simp only at h
+    have := convertToBest_spec hc hu h
+    refine ⟨this.2.1, this.2.2.1, this.2.2.2, ?_, (by intro hs; cases hs)⟩
+    intro s' hs; cases hs; exact this.1
+  | unit target =>
+    simp only at h
+    split at h
+    · cases h
+    · rename_i t' ht'
+      split at h
+      · cases h
+      · rename_i v hv
+        simp only [Except.ok.injEq, Prod.mk.injEq] at h
+        obtain ⟨rfl, rfl⟩ := h
+        have htm : t' ∈ c.allUnits := by
+          cases target with
+          | unit x => simp only [Converter.getUnit, Except.ok.injEq] at ht'; subst ht'; exact hto _ rfl
+          | key k =>
+            simp only [Converter.getUnit] at ht'
+            split at ht'
+            · rename_i u' hu'
+              simp only [Except.ok.injEq] at ht'; subst ht'
+              exact findUnit_mem hu'
+            · cases ht'
+        have := convertToUnit_spec hv (hc.ratio_ne _ htm) (hc.id_inj _ _ hu htm)
+        exact ⟨htm, this.1.symm, this.2, (by intro s hs; cases hs), (by intro hs; cases hs)⟩
+
+end Cook
+
+namespace Cook
+open Arith
+
+theorem symbol_mem_allKeys {u : Unit Rat} {s : UStr} (h : u.symbol? = some s) : s ∈ u.allKeys := by
+  unfold Unit.symbol? at h
+  unfold Unit.allKeys
+  split at h
+  · rename_i x hx
+    simp only [Option.some.injEq] at h; subst h
+    simp [List.mem_of_mem_head? hx]
+  · split at h
+    · rename_i x hx
+      simp only [Option.some.injEq] at h; subst h
+      simp [List.mem_of_mem_head? hx]
+    · simp [List.mem_of_mem_head? h]
+
+theorem Converter.Sound.find_symbol {c : Converter Rat} (hc : c.Sound) {u : Unit Rat}
+    (hu : u ∈ c.allUnits) {s : UStr} (h : u.symbol? = some s) : c.findUnit s = some u :=
+  hc.keys u hu s (symbol_mem_allKeys h)
+
+/-! ### fractions keep the value -/
+
+theorem approx_value {c : Converter Rat} {v : Rat} {cfg : FracCfg Rat} {n : Number Rat}
+    (h : c.approx v cfg = some n) : n.value = v :=
+  newApprox_value _ _ _ _ _ _ h
+
+theorem tryApprox_value (c : Converter Rat) (n : Number Rat) (cfg : FracCfg Rat) :
+    (tryApprox c n cfg).1.value = n.value := by
+  unfold tryApprox
+  split
+  · rename_i f hf; exact approx_value hf
+  · rfl
+
+theorem tryApprox_false {c : Converter Rat} {n : Number Rat} {cfg : FracCfg Rat}
+    (h : (tryApprox c n cfg).2 = false) : (tryApprox c n cfg).1 = n := by
+  unfold tryApprox at h ⊢
+  split
+  · rename_i f hf; simp [hf] at h
+  · rfl
+
+theorem tryFraction_unit (c : Converter Rat) (q : SQuantity Rat) :
+    (tryFraction c q).1.unit = q.unit := by
+  unfold tryFraction
+  repeat' split
+  all_goals rfl
+
+theorem tryFraction_parts (c : Converter Rat) (q : SQuantity Rat) :
+    (tryFraction c q).1.value.parts = q.value.parts := by
+  unfold tryFraction
+  split
+  · rfl
+  · split
+    · rfl
+    · split
+      · rename_i n hn
+        simp [hn, Value.parts, tryApprox_value]
+      · rename_i s e hv
+        split
+        · simp [hv, Value.parts, tryApprox_value]
+        · simp [hv, Value.parts, tryApprox_value]
+      · rfl
+
+theorem tryFraction_false {c : Converter Rat} {q : SQuantity Rat}
+    (h : (tryFraction c q).2 = false) : (tryFraction c q).1 = q := by
+  unfold tryFraction at h ⊢
+  cases hu : unitInfo c q with
+  | none => rfl
+  | some u =>
+    simp only [hu] at h ⊢
+    by_cases hen : (!(c.fractionsConfig u).enabled) = true
+    · simp only [hen, if_true]
+    · simp only [hen] at h ⊢
+      cases q with
+      | mk value unit =>
+        cases value with
+        | number n =>
+          simp only [Bool.false_eq_true, if_false] at h ⊢
+          rw [tryApprox_false h]
+        | range s e =>
+          simp only at h ⊢
+          by_cases ht : (tryApprox c s (c.fractionsConfig u)).2 = true
+          · simp [ht] at h
+          · simp only [ht, Bool.false_eq_true, if_false] at h ⊢
+            rw [tryApprox_false h]
+        | text t => rfl
 
 end Cook
